@@ -225,8 +225,8 @@ def fused_tie(r):
     hdr = HDR + "From UV Require Import Model.Prims Proofs.Opt.\n"
     jobs, shard = [], 400
     for si, ch in enumerate(chunks(cases, shard)):
-        body = ";\n".join("(%d%%N, %s, %s)" % (c["id"], c["arr"], ("Some (%d)%%Z" % c["val"]) if c["ok"] else "None") for c in ch)
-        jobs.append(("c01_f_%d" % si, hdr + "Definition cases : list (N * arr * option Z) := [\n%s\n].\nEval vm_compute in (fcodes_from 0%%N cases).\n" % body))
+        body = ";\n".join("(%d%%N, %s, %s)" % (c["id"], c["arr"], ("Some %s" % c["res"]) if c["ok"] else "None") for c in ch)
+        jobs.append(("c01_f_%d" % si, hdr + "Definition cases : list (N * arr * option arr) := [\n%s\n].\nEval vm_compute in (fcodes_from 0%%N cases).\n" % body))
     res = coq_eval_many(jobs, timeout=600)
     bad, unspec = [], 0
     for si, (rc2, o) in enumerate(res):
@@ -317,7 +317,7 @@ def run(r):
         "exporter of uiua::Node trees to the model's node type (harness/src/bin/c01.rs Ex + uvh::Export); primitive arities taken from the tables at export time; "
         "literals are exported as integer scalars or opaque ids (the model of Node::push treats non-scalar literals as wildcards)",
         "the reference semantics of array primitives (coq/Model/Prims.v, written from the documentation, tied to the interpreter by C08's check); the semantics given in "
-        "Proofs/Opt.v to the fused primitives FirstMin/LastMin/FirstMax/LastMax index and CountUnique is tied to the real fused primitives by this check's fused tie, "
+        "Proofs/Opt.v to the fused primitives FirstMin/LastMin/FirstMax/LastMax index, CountUnique, SortDown, FirstSort, LastSort and NegAbs is tied to the real fused primitives by this check's fused tie (scalar and array results; NegAbs on characters is outside the model), "
         "the semantics of TransposeN (iterated transpose) by the search only",
         "hooks verif::set_rewrites / verif::rewrites_on / verif::optimize_node (cfg verif_hooks): set_rewrites(false) makes optimize_impl return at once and Node::push not inline; "
         "that this switches off nothing else is not checked",
@@ -325,9 +325,10 @@ def run(r):
         "attribution of a search finding to a rule comes from the generated snippet, not from a trace of the optimiser",
     ]
     r.assumptions += [
-        "rule soundness (original succeeds => rewritten succeeds with the same stack, no fill in scope, well-formed arrays) is proved for the 9 rules of `proved` only: "
-        "reverse;first, reverse;last, rise;first, fall;last, fall;first, rise;last, deduplicate;length, TransposeOpt, PopConst; "
-        "the 34 rules of `listed_unproved` are decided by the differential search (the property is partial for them)",
+        "rule soundness (original succeeds => rewritten succeeds with the same stack, no fill in scope, well-formed arrays) is proved for the 14 rules of `proved` only: "
+        "reverse;first, reverse;last, rise;first, fall;last, fall;first, rise;last, deduplicate;length, sort;reverse, SortDown;reverse, sort;first, sort;last, "
+        "absolute value;negate, TransposeOpt, PopConst; "
+        "the 29 rules of `listed_unproved` are decided by the differential search (the property is partial for them)",
         "C01_optimize_run_sound is about the fix-point loop on ONE run of primitives and integer literals; the recursion of optimize_impl into operands "
         "(optimize_single since 402368c) is transcribed and validated by the optimiser tie but not proved sound",
         "pre-evaluation (PreEvalMode::Normal) and Node::push on non-scalar literals are covered by the search only; PathOpt's fill shapes are not transcribed (kept out of the tie)",
@@ -353,7 +354,8 @@ def run(r):
                           "V (optimiser): distinct raw trees (compiled with every rewrite off) of sources that embed each rule's left-hand side bare, inside operands, "
                           "after literals and nested up to 3 deep, optimised at Full and Early by the real optimiser and by the model; non-trivial = the optimiser changed the tree; "
                           "V (push): Node::from_iter of raw runs against the model; non-trivial = push shortened the run; "
-                          "C (fused): the five fused index/count primitives on marked (sorted up/down) and unmarked arrays with tied extremes, rank 1-2, and empty arrays, against prim_sem; "
+                          "C (fused): nine fused primitives (four first/last min/max index, CountUnique, SortDown, FirstSort, LastSort, NegAbs) on marked (sorted up/down) and unmarked arrays with tied extremes, "
+                          "rank 1-2, and empty arrays: the real result (a scalar or an array) against prim_sem; "
                           "search: every program run in the three configurations {no rewrites, optimiser, optimiser + pre-evaluation}, in this order: regression corpus (bare reproducers of every "
                           "defect found, repaired and open), marked x tied-extremes family, rowless family (every rule on rowless arrays of every type, bare / under rows / behind a function), "
                           "random rule-biased programs x generated arguments of every element type and rank 0-3, whole files and blank-line chunks of /repo/tests")
